@@ -198,3 +198,43 @@ def all_names(words, max_len=4):
         layer = [n + [c] for n in layer for c in comps]
         out += layer
     return out
+
+
+@st.composite
+def templated_schema(draw):
+    """Small hand-shaped families with drawn variations (shapes the free generator reaches too rarely):
+    'shift'  - two packet definitions binding the SAME named pattern at DIFFERENT positions, with different signers;
+    'twice'  - a rule with several definitions of different shape (literal / constrained temporary or named pattern) that a
+               signer rule refers to two or three times in one name."""
+    lits = ['a', 'b', 'c']
+    if draw(st.booleans()):
+        w = draw(st.integers(2, 3))
+        p1 = draw(st.integers(0, w - 1))
+        p2 = draw(st.integers(0, w - 1).filter(lambda v: v != p1))
+        pat = draw(st.sampled_from(NAMED))
+
+        def items(pos, other):
+            return [{'lit': 'K'}] + [{'pat': pat} if j == pos else {'pat': other} for j in range(w)]
+        other1, other2 = draw(st.sampled_from(['_', '_t'])), draw(st.sampled_from(['_', '_t', 'y' if pat != 'y' else 'z']))
+        key_shape = draw(st.sampled_from(['pat', 'pat-lit', 'lit-pat']))
+
+        def key(lit):
+            return {'pat': [{'lit': lit}, {'pat': pat}], 'pat-lit': [{'lit': lit}, {'pat': pat}, {'lit': 'c'}],
+                    'lit-pat': [{'lit': lit}, {'lit': 'c'}, {'pat': pat}]}[key_shape]
+        same = draw(st.booleans())
+        rules = [{'id': '#r0', 'name': items(p1, other1), 'cons': [], 'sign': ['#r2']},
+                 {'id': '#r0' if same else '#r1', 'name': items(p2, other2), 'cons': [], 'sign': ['#r3']},
+                 {'id': '#r2', 'name': key('a'), 'cons': [], 'sign': []},
+                 {'id': '#r3', 'name': key('b'), 'cons': [], 'sign': []}]
+        return {'rules': rules}
+    tp = draw(st.sampled_from(['_t', '_', 'x']))
+    opts = [{'lit': w_} for w_ in draw(st.lists(st.sampled_from(lits), min_size=1, max_size=2, unique=True))]
+    d_lit = {'id': '#r0', 'name': [{'lit': draw(st.sampled_from(lits))}], 'cons': [], 'sign': []}
+    d_pat = {'id': '#r0', 'name': [{'pat': tp}], 'cons': [[{'pat': tp, 'opts': opts}]], 'sign': []}
+    defs = [d_lit, d_pat] if draw(st.booleans()) else [d_pat, d_lit]
+    if draw(st.integers(0, 3)) == 0:
+        defs.append({'id': '#r0', 'name': [{'lit': 'K'}, {'pat': '_'}], 'cons': [], 'sign': []})
+    nref = draw(st.integers(2, 3))
+    key_rule = {'id': '#r2', 'name': [{'lit': 'K'}] + [{'ref': '#r0'}] * nref, 'cons': [], 'sign': []}
+    pkt = {'id': '#r1', 'name': [{'lit': 'q'}, {'pat': '_'}], 'cons': [], 'sign': ['#r2']}
+    return {'rules': defs + [pkt, key_rule]}
